@@ -353,6 +353,14 @@ def handle (j : Json) : R Json := do
   | "matchmcp" => return matchJson (matchMcp (toConfig (j.getObjValD "config")) (← str j "tool"))
   | "matchaftermcp" => return optStrJson (matchAfterMcp (toConfig (j.getObjValD "config")) (← str j "tool"))
   | "merge" => return configJson (mergeConfigs (toConfig (j.getObjValD "base")) (toConfig (j.getObjValD "overlay")))
+  | "tables" =>
+    let l (xs : List String) : Json := Json.arr (xs.map Json.str).toArray
+    return Json.mkObj [
+      ("simpleSafe", l Generated.simpleSafe), ("wrapperCommands", l Generated.wrapperCommands),
+      ("handlerCommands", l Generated.handlerCommands), ("safeRedirectTargets", l Generated.safeRedirectTargets),
+      ("redirectOps", l Generated.redirectOps), ("arithWalkedAttrs", l Generated.arithWalkedAttrs),
+      ("handlerModule", Json.arr (Generated.handlerModule.map fun kv => Json.arr #[Json.str kv.1, Json.str kv.2]).toArray),
+      ("descriptionDepth", Json.arr (Generated.descriptionDepth.map fun kv => Json.arr #[Json.str kv.1, Json.num kv.2]).toArray)]
   | "ping" => return Json.str "pong"
   | other => throw s!"unknown op {other}"
 
